@@ -243,6 +243,11 @@ fn judge<T: PartialEq + Debug>(r: &mut Report, case: &Case, flavour: &str, want:
     let cj = json!({"type": case.ty, "deserializer": case.de, "content_type": format!("{:?}", case.ct), "limit": case.limit, "flavour": flavour,
         "script": case.script.iter().map(|e| match e { Ev::Chunk(b) => json!({"chunk": b}), Ev::Empty => json!("empty"), Ev::Pending => json!("pending"), Ev::Err => json!("err") }).collect::<Vec<_>>()});
     let class = body_class(case, &body);
+    // whatever an un-fused body yields after its end is not part of the request
+    if script::take_after_end() > 0 && got.is_ok() {
+        r.violation(format!("C06|{}|{}|body-advanced-after-its-end|{}", case.de, flavour, class), format!("{}: the body {} was asked for more after it had reported its end", case.de, script::text(case.script)), cj);
+        return;
+    }
     match (want, got) {
         (_, Err(p)) => r.violation(format!("C06|{}|{}|panic|{}", case.de, flavour, class), format!("{} panicked on {} [{}]: {}", case.de, script::text(case.script), case.ty, p), cj),
         (Expect::Accept(v), Ok(Ok(g))) => {
@@ -383,7 +388,8 @@ fn run_binary(r: &mut Report, ct: Ct, s: &Script, rt: &ConjureRuntime) {
 
 // ---------------------------------------------------------------- bodies
 
-const TRAILERS: [&[u8]; 16] = [b" ", b"\n", b"0", b"x", b",", b"]", b"}", b"\"", b"\0", b"\xff", b" x", b" 1", b"\n\n", b" null", b"[]", b"\t\r\n "];
+// (form feed, vertical tab and NEL are white space to many libraries but not to JSON)
+const TRAILERS: [&[u8]; 20] = [b" ", b"\n", b"0", b"x", b",", b"]", b"}", b"\"", b"\0", b"\xff", b" x", b" 1", b"\n\n", b" null", b"[]", b"\t\r\n ", b"\x0c", b" \x0c\n", b"\x0b", b"\xc2\x85"];
 
 pub fn catalogue(valid: &[&str]) -> Vec<Vec<u8>> {
     let mut out: Vec<Vec<u8>> = vec![];
@@ -404,6 +410,8 @@ pub fn catalogue(valid: &[&str]) -> Vec<Vec<u8>> {
         }
         out.push(format!(" \n{}", v).into_bytes());
         out.push(format!("\u{feff}{}", v).into_bytes());
+        out.push(format!("\u{c}{}", v).into_bytes());
+        out.push(format!(" \u{b}{}", v).into_bytes());
         // the same object with a member the type may not declare
         if let Some(x) = with_extra_member(v) {
             out.push(serde_json::to_vec(&x).unwrap());
@@ -602,6 +610,22 @@ fn limits(r: &mut Report, rt: &ConjureRuntime, k: usize) {
                     r.states += 1;
                     run_std::<String, { $n }>(r, "string", Ct::Json, &s, cost, rt);
                 }
+                // a number: every prefix of the document is a document too, so a body cut at
+                // the limit would still decode
+                if len >= 1 {
+                    let b = "1".repeat(len).into_bytes();
+                    let mut scripts: Vec<(Script, usize)> = script::explore(&b, k.min(1), true, true);
+                    for c in [1usize, 2, 3] {
+                        scripts.push((uniform(&b, c), 99));
+                    }
+                    if len >= 6 {
+                        scripts.push((vec![Ev::Chunk(b[..2].to_vec()), Ev::Chunk(b[2..4].to_vec()), Ev::Chunk(b[4..5].to_vec()), Ev::Chunk(b[5..].to_vec())], 99));
+                    }
+                    for (s, cost) in scripts {
+                        r.states += 1;
+                        run_std::<i32, { $n }>(r, "integer", Ct::Json, &s, cost, rt);
+                    }
+                }
             }
         };
     }
@@ -726,6 +750,51 @@ fn long_invalid_texts(r: &mut Report, rt: &ConjureRuntime) {
     }
 }
 
+/// runtimes built through the builder: only Smile, only JSON, Smile before JSON, and its defaults. A body is decoded only under an encoding that *was registered*
+fn custom_registries(r: &mut Report) {
+    use conjure_http::server::{JsonEncoding, SmileEncoding};
+    let json = b"\"hello\"".to_vec();
+    let smile = serde_smile::to_vec(&"hello").unwrap();
+    let regs: Vec<(&str, ConjureRuntime, bool, bool)> = vec![
+        ("smile-only", ConjureRuntime::builder().encoding(SmileEncoding).build(), false, true),
+        ("json-only", ConjureRuntime::builder().encoding(JsonEncoding).build(), true, false),
+        ("smile-then-json", ConjureRuntime::builder().encoding(SmileEncoding).encoding(JsonEncoding).build(), true, true),
+        // (a builder given no encoding registers the two default ones)
+        ("builder-defaults", ConjureRuntime::builder().build(), true, true),
+    ];
+    for (name, rt, has_json, has_smile) in &regs {
+        for ct in ALL_CT {
+            for (what, body) in [("json-body", &json), ("smile-body", &smile)] {
+                r.states += 1;
+                let s = script::default_script(body);
+                let h = headers(ct);
+                let registered = match ct.encoding() {
+                    Some("json") => *has_json,
+                    Some("smile") => *has_smile,
+                    _ => false,
+                };
+                let matches_body = matches!((ct.encoding(), what), (Some("json"), "json-body") | (Some("smile"), "smile-body"));
+                let runs: Vec<(&str, Result<Result<String, Error>, String>)> = vec![
+                    ("blocking", vcommon::catch(|| <StdRequestDeserializer<{ 50 * 1024 * 1024 }> as DeserializeRequest<String, _>>::deserialize(rt, &h, ScriptIter::new(&s)))),
+                    ("async", vcommon::catch(|| block_on(<StdRequestDeserializer<{ 50 * 1024 * 1024 }> as AsyncDeserializeRequest<String, _>>::deserialize(rt, &h, ScriptStream::new(&s))))),
+                ];
+                for (flavour, got) in runs {
+                    r.evaluations += 1;
+                    r.transitions += 1;
+                    let case = json!({"kind": "custom-registry", "registry": name, "content_type": format!("{:?}", ct), "body": what, "flavour": flavour});
+                    match got {
+                        Err(p) => r.violation(format!("C06|direct|custom-registry|panic|{}", name), format!("registry {} panicked on Content-Type {:?}: {}", name, ct, p), case),
+                        Ok(Ok(v)) if registered && matches_body && v == "hello" => r.outcome("accepted-with-the-document's-value"),
+                        Ok(Ok(v)) => r.violation(format!("C06|direct|custom-registry|accepted|{}|ct={:?}", name, ct), format!("registry {}: a {} under Content-Type {:?} was accepted as {:?} (registered: {})", name, what, ct, v, registered), case),
+                        Ok(Err(_)) if registered && matches_body => r.violation(format!("C06|direct|custom-registry|valid-body-rejected|{}|ct={:?}", name, ct), format!("registry {}: a valid {} under the registered Content-Type {:?} was rejected", name, what, ct), case),
+                        Ok(Err(_)) => r.outcome("rejected:INVALID_ARGUMENT"),
+                    }
+                }
+            }
+        }
+    }
+}
+
 fn byte_strings(r: &mut Report, rt: &ConjureRuntime, max_len: usize) {
     vcommon::enumerate::for_each_word(JSON_SYMBOLS.len(), max_len, |w| {
         let body: String = w.iter().map(|i| JSON_SYMBOLS[*i]).collect();
@@ -760,6 +829,7 @@ pub fn run(args: &Args) -> Report {
         Box::new(move |r, rt| byte_strings(r, rt, if thorough { 4 } else { 3 })),
         Box::new(move |r, rt| hr_bodies(r, rt)),
         Box::new(move |r, rt| long_invalid_texts(r, rt)),
+        Box::new(move |r, _rt| custom_registries(r)),
         Box::new(move |r, rt| {
             // optional / alias-of-optional / binary deserializers over every Content-Type and script
             for body in [&b"\"x\""[..], b"null", b"\"x\" y", b"\"x", b""] {
@@ -805,6 +875,10 @@ fn replay(path: &str, mut report: Report, rt: &ConjureRuntime) -> Report {
     let v = vcommon::load_replay(path);
     let c = &v["case"];
     report.exhaustive = false;
+    if c["kind"] == "custom-registry" {
+        custom_registries(&mut report);
+        return report;
+    }
     if c["kind"] == "long-invalid-text" {
         long_invalid_texts(&mut report, rt);
         return report;
@@ -864,7 +938,11 @@ fn replay(path: &str, mut report: Report, rt: &ConjureRuntime) -> Report {
     macro_rules! lim {
         ($n:expr) => {
             if limit == $n {
-                run_std::<String, { $n }>(&mut report, "string", ct, &script, 0, rt);
+                if ty == "integer" {
+                    run_std::<i32, { $n }>(&mut report, "integer", ct, &script, 0, rt);
+                } else {
+                    run_std::<String, { $n }>(&mut report, "string", ct, &script, 0, rt);
+                }
                 return report;
             }
         };
